@@ -155,6 +155,9 @@ func (s *SuffrageStateBuilder) buildBatch(
 				return err
 			case !found:
 				return util.ErrNotFound.Errorf("suffrage proof not found, %d", height)
+			case proof.SuffrageHeight() != height:
+				return errors.Errorf(
+					"suffrage proof of wrong height, expected %d, but %d", height, proof.SuffrageHeight())
 			}
 
 			return func() error {
